@@ -40,13 +40,13 @@ ID = 'C01'
 RULE = ('one case = one randomly generated pixel aperture (six classes x three methods, scalar or 1-5 positions) '
         'from a hostile geometry class (generic / lattice ties / integer±1e-12..1e-9 / far off-image / tiny / large / '
         'circle through a pixel corner / tangent to a pixel edge / pixel corner on the ellipse / needle / k·pi/4 angles / '
-        'thin annulus / multi-position / re-assigned parameters / image-edge straddling) or a BoundingBox algebra case; '
+        'thin annulus / multi-position / re-assigned parameters / augmented in-place updates (+=, -=, *=) of positions, shape parameters or theta applied to one of parent / indexed / sliced / iterated child / copy() / the source array of the caller with ALL relatives (created before and after, with and without filled caches) judged at the parameters they report / image-edge straddling) or a BoundingBox algebra case; '
         'every mask is judged against the reference weights, box, area and against brute-force index sets for one or '
         'more image shapes; non-trivial = some judged mask has a pixel weight strictly between 0 and 1 (center method: '
         'contains both 0 and 1 pixels), bbox_algebra: boxes partially overlap; distinct by digest of '
         '(class, shape parameters, positions, method, subpixels, image shapes)')
 CLASSES = ['generic', 'lattice', 'near_lattice', 'far', 'tiny', 'large', 'corner', 'tangent', 'vertex',
-           'needle', 'angles', 'thin_annulus', 'multi', 'reassign', 'image_ops', 'bbox_algebra']
+           'needle', 'angles', 'thin_annulus', 'multi', 'reassign', 'inplace', 'image_ops', 'bbox_algebra']
 MUST_REACH = [
     'photutils.aperture.core:PixelAperture._bbox',
     'photutils.aperture.core:PixelAperture._centered_edges',
@@ -463,6 +463,9 @@ def _gen_spec(rng, cls, tier):
         tkind = ['kpi4', 'kpi4_eps', 'deg', 'deg_k45', 'zero'][int(rng.integers(0, 5))]
     elif cls == 'thin_annulus':
         annulus = True
+    elif cls == 'inplace':
+        size_cls = ['tiny', 'small', 'small'][int(rng.integers(0, 3))]
+        ckind = ['generic', 'integer', 'half', 'mixed'][int(rng.integers(0, 4))]
     elif cls in ('multi', 'reassign', 'image_ops'):
         size_cls = ['tiny', 'small', 'small', 'medium'][int(rng.integers(0, 4))]
         ckind = ['generic', 'integer', 'half', 'mixed'][int(rng.integers(0, 4))]
@@ -590,6 +593,8 @@ def _gen_spec(rng, cls, tier):
     npos = 0                                            # scalar
     if cls == 'multi' or rng.random() < 0.12:
         npos = int(rng.integers(1, 6))
+    if cls == 'inplace':
+        npos = int(rng.integers(2, 6))
     if npos == 0:
         spec['positions'] = [xc, yc]
     else:
@@ -1000,7 +1005,9 @@ def _image_shapes(rng, box, n, hostile=False):
 
 
 def _mech(spec, method, kernel='compiled'):
-    return {'shape': spec['fam'], 'annulus': spec['annulus'], 'method': method, 'kernel': kernel}
+    m = {'shape': spec['fam'], 'annulus': spec['annulus'], 'method': method, 'kernel': kernel}
+    m.update(spec.get('_mech_extra') or {})
+    return m
 
 
 def _judge_aperture(case, aper, spec, methods, n_img=1, hostile_img=False):
@@ -1087,6 +1094,9 @@ def _case_aperture(case):
 
     if cls == 'reassign':
         _case_reassign(case, aper, spec, methods)
+        return
+    if cls == 'inplace':
+        _case_inplace(case, aper, spec)
         return
     nontriv = _judge_aperture(case, aper, spec, methods, n_img=3 if cls == 'image_ops' else 1,
                               hostile_img=cls == 'image_ops')
@@ -1203,6 +1213,178 @@ def _case_reassign(case, aper, spec, methods):
         case.check(len(a) == len(b) and all(_box_tuple(x.bbox) == _box_tuple(y.bbox) and core.exact(x.data, y.data)
                                             for x, y in zip(a, b)),
                    'reassigned_aperture_equals_fresh_one', dict(_mech(merged, method), changed=sorted(set(changed))))
+    case.nontrivial = nontriv
+
+
+_PARAM_NAMES = {('circle', False): ['r'], ('circle', True): ['r_in', 'r_out'],
+                ('ellipse', False): ['a', 'b'], ('ellipse', True): ['a_in', 'a_out', 'b_out', 'b_in'],
+                ('rect', False): ['w', 'h'], ('rect', True): ['w_in', 'w_out', 'h_out', 'h_in']}
+# direction in which a parameter may move without leaving the documented domain (outer > inner, a >= b)
+_PARAM_DIR = {'r': 'free', 'r_in': 'down', 'r_out': 'up', 'a': 'up', 'b': 'down', 'a_in': 'down', 'a_out': 'up',
+              'b_out': 'up', 'b_in': 'down', 'w': 'free', 'h': 'free', 'w_in': 'down', 'w_out': 'up', 'h_out': 'up',
+              'h_in': 'down'}
+
+
+def _reported_spec(obj, spec, extra):
+    """The spec of the shape the object REPORTS right now (attributes read back from it)."""
+    import astropy.units as u
+    names = _PARAM_NAMES[(spec['fam'], spec['annulus'])]
+    prm = {n: float(getattr(obj, n)) for n in names}
+    th = float(obj.theta.to(u.radian).value) if spec['fam'] != 'circle' else 0.0
+    pos = np.array(obj.positions, dtype=float, copy=True)
+    out = dict(spec)
+    out.update(prm=prm, theta=th, theta_arg=th, tdesc='reported', positions=pos.tolist(),
+               npos=0 if pos.ndim == 1 else len(pos), special=None, _mech_extra=extra)
+    return out
+
+
+def _case_inplace(case, parent, spec):
+    """History over a family of related objects: parent, int-indexed child, slice child, iterated child, copy(),
+    an aperture built from a caller-owned float array - created before and after an augmented in-place update
+    (`+=`, `-=`, `*=` of positions, of a shape parameter, of theta, or of the caller's source array) applied to ONE
+    of them.  Some objects are 'used' (bbox / _centered_edges / to_mask evaluated, caches filled) before the update.
+    Afterwards bbox, to_mask (all three methods) and area of EVERY object are judged against the geometric oracle
+    evaluated at the parameters that object reports at that moment."""
+    import astropy.units as u
+    rng = case.rng
+    s_sub = int(rng.choice([2, 3, 5]))
+    methods = [('exact', 1), ('center', 1), ('subpixel', s_sub)]
+    n = len(parent)
+    src = np.array(spec['positions'], dtype=float)            # caller-owned array
+    family = {'parent': parent}
+    k = int(rng.integers(0, n))
+    i0 = int(rng.integers(0, n - 1))
+    i1 = int(rng.integers(i0 + 1, n + 1))
+    family['child_index'] = parent[k]
+    family['child_slice'] = parent[i0:i1]
+    family['child_iter'] = list(parent)[int(rng.integers(0, n))]
+    family['copy'] = parent.copy()
+    # an aperture constructed directly from a float64 array the caller keeps
+    cls_ = type(parent)
+    kw = {nm: getattr(parent, nm) for nm in parent._params if nm != 'positions'}
+    family['from_array'] = cls_(positions=src, **kw)
+    used = {}
+    for name, obj in family.items():
+        used[name] = bool(rng.random() < 0.6)
+        if used[name]:
+            _ = obj.bbox, obj._centered_edges, obj.area
+            obj.to_mask(method=methods[int(rng.integers(0, 3))][0], subpixels=s_sub)
+    def reported(o):
+        th_ = float(o.theta.to(u.radian).value) if spec['fam'] != 'circle' else 0.0
+        return (np.array(o.positions, dtype=float, copy=True), th_,
+                [float(getattr(o, nm_)) for nm_ in _PARAM_NAMES[(spec['fam'], spec['annulus'])]])
+    before = {name: reported(obj) for name, obj in family.items()}
+    # ---- the update(s), applied to one object (or to the caller's array)
+    targets = ['parent', 'parent', 'parent', 'child_slice', 'child_index', 'copy', 'source_array']
+    target = targets[int(rng.integers(0, len(targets)))]
+    steps = []
+    for _ in range(int(rng.integers(1, 3))):
+        what = ['positions', 'positions', 'param', 'theta'][int(rng.integers(0, 4))]
+        if target == 'source_array':
+            what = 'positions'
+        if what == 'theta' and spec['fam'] == 'circle':
+            what = 'param'
+        op = ['+=', '-=', '*='][int(rng.integers(0, 3))]
+        if what == 'positions':
+            dkind = int(rng.integers(0, 3))
+            d = (np.array([float(rng.integers(-9, 10)), float(rng.integers(-9, 10))]) if dkind == 0 else
+                 np.array([float(rng.integers(-9, 10)) + 0.5, float(rng.integers(-9, 10)) + 0.5]) if dkind == 1 else
+                 rng.uniform(-9, 9, 2))
+            if not d.any():
+                d = np.array([3.0, -2.0])
+            f = float(rng.choice([0.5, 1.5, 2.0, float(rng.uniform(0.3, 1.7))]))
+            if target == 'source_array':
+                if op == '+=':
+                    src += d
+                elif op == '-=':
+                    src -= d
+                else:
+                    src *= f
+            else:
+                obj = family[target]
+                if op == '+=':
+                    obj.positions += d
+                elif op == '-=':
+                    obj.positions -= d
+                else:
+                    obj.positions *= f
+            steps.append(f'{target}.positions {op}')
+        elif what == 'theta':
+            obj = family[target]
+            q = float(rng.choice([math.pi / 4, 0.3, float(rng.uniform(0.05, 1.5))]))
+            if op == '+=':
+                obj.theta += q * u.rad
+            elif op == '-=':
+                obj.theta -= q * u.rad
+            else:
+                obj.theta *= float(rng.choice([2.0, 0.5, -1.0]))
+            steps.append(f'{target}.theta {op}')
+        else:
+            obj = family[target]
+            names = _PARAM_NAMES[(spec['fam'], spec['annulus'])]
+            nm = names[int(rng.integers(0, len(names)))]
+            dr = _PARAM_DIR[nm]
+            if dr == 'free':
+                dr = ['up', 'down'][int(rng.integers(0, 2))]
+            v = float(getattr(obj, nm))
+            if dr == 'up':
+                if op == '-=':
+                    op = '+='
+                if op == '+=':
+                    setattr(obj, nm, getattr(obj, nm) + v * float(rng.uniform(0.1, 1.0)))
+                else:
+                    fct = float(rng.uniform(1.1, 2.0))
+                    cur = getattr(obj, nm)
+                    cur *= fct
+                    setattr(obj, nm, cur)
+            else:
+                if op == '+=':
+                    op = '-='
+                if op == '-=':
+                    cur = getattr(obj, nm)
+                    cur -= v * float(rng.uniform(0.1, 0.5))
+                    setattr(obj, nm, cur)
+                else:
+                    cur = getattr(obj, nm)
+                    cur *= float(rng.uniform(0.5, 0.9))
+                    setattr(obj, nm, cur)
+            steps.append(f'{target}.{nm} {op}')
+    # ---- relatives created after the update
+    p2 = family['parent']
+    n2 = len(p2)
+    family['child_index_after'] = p2[int(rng.integers(0, n2))]
+    family['child_iter_after'] = list(p2)[int(rng.integers(0, n2))]
+    family['copy_after'] = p2.copy()
+    if n2 >= 2:
+        j0 = int(rng.integers(0, n2 - 1))
+        family['child_slice_after'] = p2[j0:int(rng.integers(j0 + 1, n2 + 1))]
+    # ---- judge every object at the parameters it reports now
+    case.params = _spec_params(spec)
+    case.params.update(steps=steps, used=[k_ for k_, v_ in used.items() if v_], target=target)
+    case.digest = core.digest(['inplace', case.params])
+    step_kinds = sorted({'positions' if '.positions ' in st else 'theta' if '.theta ' in st else 'shape_param'
+                         for st in steps})
+    nontriv = False
+    for name, obj in family.items():
+        is_target = name == target
+        extra = {'history': 'inplace_update', 'role': name, 'updated': is_target, 'target': target,
+                 'used_before_update': bool(used.get(name, False)), 'updated_attrs': '+'.join(step_kinds)}
+        if name in before:
+            # structural facts about aliasing: an object that was NOT the target reports other parameters than before
+            now = reported(obj)
+            extra['untouched_object_positions_moved'] = bool(not is_target and not core.exact(now[0], before[name][0]))
+            extra['untouched_object_theta_moved'] = bool(not is_target and now[1] != before[name][1])
+            extra['untouched_object_shape_param_moved'] = bool(not is_target and now[2] != before[name][2])
+            for kk in ('untouched_object_positions_moved', 'untouched_object_theta_moved',
+                       'untouched_object_shape_param_moved'):
+                if extra[kk]:
+                    case.note('inplace:' + kk)
+        rspec = _reported_spec(obj, spec, extra)
+        case.note('inplace_objects_judged')
+        if used.get(name):
+            case.note('inplace_objects_judged_with_filled_caches')
+        nontriv |= _judge_aperture(case, obj, rspec, methods)
+    case.note('inplace_update_steps', len(steps))
     case.nontrivial = nontriv
 
 
